@@ -115,7 +115,7 @@ def linecol(code, pos):
 
 
 class Outcome:
-    __slots__ = ("status", "base", "code", "reports", "exc", "site", "trace", "comp", "tb", "dirty")
+    __slots__ = ("status", "base", "code", "reports", "exc", "site", "trace", "comp", "tb", "dirty", "parsed")
 
     def __init__(self):
         self.status = None
@@ -128,6 +128,7 @@ class Outcome:
         self.comp = None
         self.tb = None
         self.dirty = None
+        self.parsed = None
 
     @property
     def ok(self):
@@ -213,6 +214,7 @@ def assemble(files, charset="bk", tree=None, keep=False, abort_at=None, reset=Tr
     else:
         root = os.path.join(scratch_root(), "m")
     comp = None
+    parsed = None
     try:
         try:
             with reports.handle_reports(rec):
@@ -239,6 +241,7 @@ def assemble(files, charset="bk", tree=None, keep=False, abort_at=None, reset=Tr
     out.reports = rec.reports
     if keep:
         out.comp = comp
+        out.parsed = parsed
     out.trace = getattr(comp, "_verif_trace", None) if keep else None
     if reset:
         d = module_state_dirty()
